@@ -20,7 +20,7 @@ RULE = ("schemas with mutable defaults on typed lists/dicts (scalars, dict items
         "load of the unchanged files; hand-made argparse namespaces (known options, options a dynamic or fixed section "
         "does not declare) go through cmdline_args_override; non-trivial = >= 3 "
         "operations applied with >= 1 in-place mutation or dynamic field; distinct = distinct (schema, history)")
-REQUIRED = ("cmdline_namespaces_applied", "same_document_loads", "cross_assignments", "serialisations_applied", "twin_before_checks", "twin_after_checks", "fingerprint_checks", "shared_item_checks", "ops_applied",
+REQUIRED = ("schemas_with_environment_prefix", "resets_then_inplace_mutations", "cmdline_namespaces_applied", "same_document_loads", "cross_assignments", "serialisations_applied", "twin_before_checks", "twin_after_checks", "fingerprint_checks", "shared_item_checks", "ops_applied",
             "inplace_mutations", "dynamic_fields_added")
 ASSUMPTIONS = ["deep mutation inside an *untyped* default (ListField(default=[[1]]), Field(default=[...])) is out of "
                "scope: the property quantifies over mutable defaults on typed fields"]
@@ -35,6 +35,10 @@ def generate(rng, ctx):
         return {"scenario": "shared-item", "seed": rng.getrandbits(32), "n": rng.randrange(5, 40), "ops": []}
     schema = gen.gen_schema(rng, depth=rng.choice([1, 2, 3] if thorough else [1, 2]), width=rng.choice([3, 4, 5]),
                             defaults=0.85, dynamic=0.35)
+    if rng.random() < 0.35:
+        # environment support switched on (no variable is ever set): every code path that treats env-bound fields
+        # differently must still copy / wrap mutable defaults per configuration
+        schema["env"] = rng.choice(["VFC13", "VFC13", "vfc13x"])
     env = gen.GEN_ENV
     # defaults for lists of schemas: dict items (each configuration must get its own item objects)
     for path, nd in list(history.all_paths(schema)):
@@ -84,6 +88,24 @@ def generate(rng, ctx):
         if items:
             ops.insert(rng.randrange(len(ops) + 1), {"op": "cmdline_ns", "items": items,
                                                      "ignore": rng.choice([None, None, "config", [items[0][0]]])})
+    # reset a typed list / dict with a mutable default, then change it in place
+    for path, nd in history.all_paths(schema):
+        if "[]" in path or nd["kind"] != "field" or nd["family"] not in ("list", "dict") or not history._typed(nd):
+            continue
+        if nd.get("params", {}).get("default") is None or rng.random() < 0.4:
+            continue
+        at = rng.randrange(len(ops) + 1)
+        mut = None
+        if nd["family"] == "list" and nd["item"]["kind"] == "field":
+            x = gen.one_value(rng, nd["item"], "valid", env)
+            mut = {"op": "listop", "path": path, "name": "append", "i": 0, "n": 1, "iter": "list", "a": None, "b": None, "x": x, "xs": [x]}
+        elif nd["family"] == "dict":
+            kf, vf = nd.get("keyf"), nd.get("valf")
+            k = gen.one_value(rng, kf, "valid", env) if kf else "zr%d" % rng.randrange(9)
+            v = gen.one_value(rng, vf, "valid", env) if vf else 1
+            mut = {"op": "dictop", "path": path, "name": "setitem", "kv": [k, v], "pairs": [[k, v]], "kind": "dict"}
+        if mut is not None:
+            ops[at:at] = [{"op": "reset", "path": path, "route": rng.choice(["parent", "dotted"]), "then_mutate": True}, mut]
     return {"scenario": "twin", "schema": schema, "ops": ops, "cross": cross[:4]}
 
 
@@ -223,6 +245,12 @@ def run(case, ctx, res):
         return run_k8(case, ctx, res)
     cc = ctx.cc
     env = env_of(ctx)
+    if case["schema"].get("env"):
+        import os
+
+        if any(k.upper().startswith("VFC13") for k in os.environ):
+            return
+        res.count("schemas_with_environment_prefix")
     drv = history.Driver(ctx, res, case["schema"], env)
     a = drv.cfg
     b = cc.Config(drv.built.schema, key_filename=drv.keyfile)
@@ -255,6 +283,8 @@ def run(case, ctx, res):
             res.count("serialisations_applied")
         if out["kind"] == "cmdline-ns":
             res.count("cmdline_namespaces_applied")
+        if op.get("then_mutate") and out["raised"] is None:
+            res.count("resets_then_inplace_mutations")
         if out["kind"] == "set-dynamic" and out["raised"] is None:
             dyn += 1
             res.count("dynamic_fields_added")
@@ -297,6 +327,7 @@ def _shared_schema(cc):
     item2 = cc.Schema()
     item2.n = cc.IntField(default=0)
     item2.vals = cc.ListField(cc.IntField(), default=[1, 2])
+    item2.auth.user = cc.StringField(default="u0")  # a plain nested section inside the configuration type
     T = cc.make_type(item2, "SharedT", module="vf_types")
     root = cc.Schema()
     root.l1 = cc.ListField(item)
@@ -340,6 +371,8 @@ def run_shared(case, ctx, res):
                 else:
                     it.vals.append(idx)
                     it.n = idx
+                    if rng.random() < 0.6:
+                        it.auth.user = "mut%d" % idx
             elif act == "pop" and len(lst):
                 lst.pop()
             elif act == "assign":
@@ -347,6 +380,7 @@ def run_shared(case, ctx, res):
             elif act == "one":
                 a.one.vals.append(idx)
                 a.one.n = idx
+                a.one.auth.user = "one%d" % idx
         except Exception as exc:
             res.viol("M-twin", "shared-item:raised", "step %d: %s on %s raised %r" % (idx, act, which, exc))
             return
@@ -377,7 +411,8 @@ def run_shared(case, ctx, res):
     c = root()
     snap = Snapshot(c)
     res.count("twin_after_checks")
-    want = {"l1": None, "l2": None, "t1": None, "t2": [{"n": 7, "vals": [1, 2]}], "one": {"n": 0, "vals": [1, 2]}}
+    want = {"l1": None, "l2": None, "t1": None, "t2": [{"n": 7, "vals": [1, 2], "auth": {"user": "u0"}}],
+            "one": {"n": 0, "vals": [1, 2], "auth": {"user": "u0"}}}
     if not eqstar(snap.values, want):
         res.viol("M-twin", "shared-item:twin-after", "a configuration built afterwards starts as %r, declared defaults give %r" % (
             snap.values, want))
